@@ -37,8 +37,8 @@ CLAIMED['C01'] = dict(
    technique="Coq proof, end to end (graph invariants + writer/reader simulation: valid_smiles_under T (decoder s) = true below 100 ring pairs) + refutation witness at the bound + exact correspondence of the decoder model + extracted independent-reader oracle",
    design_ref="5/C01")
 CLAIMED['C02'] = dict(
-   text="Proof (partial, see props/C02.v): every rule's arithmetic (atom, branch, ring; regenerated from source) and every symbol table (regenerated) equals the documented grammar; index code = documented base-16 code. The refinement 'decoder = documented derivation' (C02_full_statement) is not yet a theorem: it is checked per input by the extracted documented-grammar evaluator (spec/DocGrammar.v) against the molecule the independent reader reads from the implementation's output - bounded-exhaustive over a rule-covering symbol set and sampled.",
-   technique="Coq proof of rule/table equalities + extracted documented-grammar evaluator and independent reader as oracle (bounded-exhaustive + sampled) + exact correspondence",
+   text="Proof (partial, props/C02.v), for all strings and tables: (1) what the independent reader reads from the decoder's output IS the decoder's graph - atoms with element / isotope / chirality / H / charge in written order, bonded pairs with their orders and cis/trans marks, neighbour order = parent then the entries of the row (C02_output_denotes_graph_partial; below 100 ring pairs); (2) every rejection is a DecoderError; strings whose symbols are all in the grammar and whose brackets are closed are accepted; a reached symbol outside the grammar is rejected; (3) every rule's arithmetic (atom, branch, ring; regenerated from source) and every symbol table (regenerated) equals the documented one; index code = documented base-16 code. Not a theorem: that this graph equals the documented derivation (C02_full_statement): checked per input by the extracted documented-grammar evaluator (spec/DocGrammar.v) against the molecule the independent reader reads from the implementation's output - bounded-exhaustive over a rule-covering symbol set and sampled.",
+   technique="Coq proof (output denotes the decoder's graph; rejection clauses; rule/table equalities) + extracted documented-grammar evaluator and independent reader as oracle (bounded-exhaustive + sampled) + exact correspondence",
    design_ref="5/C02")
 CLAIMED['C08'] = dict(
    text="Kernel-checked for ALL strings and ALL accepted tables (props/C08.v, proofs/DecoderInv.v): the decoder model (compatible=False, attribute on or off) returns a SMILES or raises DecoderError - no other exception class, no partial operation reached, fuel never exhausted - and a decode leaves the table in force untouched (history model). The statement excludes what the model does not exhibit and the implementation does: int() refusing more than 4300 digits and the interpreter's recursion limit (both known findings, classifiers in the check); compatible=True is covered by the correspondence only. Outcome classes of implementation and model are compared on malformed / arbitrary / long / nested inputs with all flag combinations.",
